@@ -1792,6 +1792,37 @@ func sameKeySlot(a, b Value) bool {
 	case Ptr:
 		y, ok := b.(Ptr)
 		return ok && ptrEq(x, y)
+	case *StructVal:
+		y, ok := b.(*StructVal)
+		if !ok || len(x.F) != len(y.F) {
+			return false
+		}
+		for i := range x.F {
+			if !sameKeySlot(x.F[i], y.F[i]) {
+				return false
+			}
+		}
+		return true
+	case *ArrayVal:
+		y, ok := b.(*ArrayVal)
+		if !ok || len(x.E) != len(y.E) {
+			return false
+		}
+		for i := range x.E {
+			if !sameKeySlot(x.E[i], y.E[i]) {
+				return false
+			}
+		}
+		return true
+	case *BigVal:
+		y, ok := b.(*BigVal)
+		return ok && sameKeySlot(x.T, y.T)
+	case *OpaqueVal:
+		y, ok := b.(*OpaqueVal)
+		return ok && x == y
+	case *ChanVal:
+		y, ok := b.(*ChanVal)
+		return ok && x == y
 	}
 	return false
 }
